@@ -111,9 +111,10 @@ pub fn vx_i64_from_le_slice(s: &[u8]) -> (r: i64)
 // ---- C03 (allocation clause): the buffer pre-allocated for an announced transfer (FLST) ----
 // the argument of Vec::with_capacity in FileTransferPlugin::process_msg (the function itself is outside the Verus subset)
 //@ extract src/plugins/file_transfer.rs const MAX_INITIAL_FILE_DATA_CAPACITY
+//@   optional
 //@ end
 //@ extract src/plugins/file_transfer.rs callarg `Vec::with_capacity` in FileTransferPlugin::process_msg#1
-//@   sub R3 `std::cmp::min(` => `vx_min_u64(`
+//@   sub R3 `std::cmp::min(` => `vx_min_u64(` ?
 //@   sig pub fn flst_prealloc(keep_data: bool, nr_packages: u64, buffer_size: u64) -> (r: usize)
 //@   spec
 //@|    requires nr_packages > 0 && buffer_size > 0, // the enclosing `if nr_packages > 0 && buffer_size > 0`
